@@ -198,6 +198,9 @@ var provs = []struct{ name, class string }{
 	{"argv", "sn"}, {"environ", "sn"}, {"dashv", "sn"},
 	{"const", "st"}, {"concat", "st"},
 	{"computed", "nm"}, {"uplus", "nm"},
+	// the same field position of a LATER record, after the program assigned fields of the previous record
+	// (an assigned field is a string; the next record's field is input-derived text again)
+	{"fieldafter", "sn"},
 }
 
 func sProgram(s []byte, cf, of []byte) string {
@@ -218,6 +221,10 @@ func sProgram(s []byte, cf, of []byte) string {
 	sb.WriteString("  pr(\"argv\", av); pr(\"environ\", ENVIRON[\"V\"]); pr(\"dashv\", vv)\n")
 	fmt.Fprintf(&sb, "  pr(\"const\", %s); pr(\"concat\", gv \"\")\n", hx.AwkString(s))
 	sb.WriteString("  pr(\"computed\", gv + 0); pr(\"uplus\", +gv)\n")
+	sb.WriteString("  $1 = \"x\"; $2 = \"zz\"; getline\n")
+	if len(s) > 0 {
+		sb.WriteString("  pr(\"fieldafter\", $1)\n")
+	}
 	sb.WriteString("}\n")
 	sb.WriteString(probeFunc)
 	return sb.String()
@@ -443,7 +450,7 @@ func replayS(c *Case) hx.Outcome {
 	prog := sProgram(s, c.Cf.Bytes(), c.Of.Bytes())
 	var in bytes.Buffer
 	in.WriteString("1.0\n")
-	for i := 0; i < 3; i++ {
+	for i := 0; i < 4; i++ {
 		in.Write(s)
 		in.WriteByte('\n')
 	}
@@ -468,7 +475,7 @@ func replayS(c *Case) hx.Outcome {
 	}
 	want := len(provs)
 	if len(s) == 0 {
-		want -= 3 // split("") has no element; $1 of the empty record does not exist
+		want -= 4 // split("") has no element; $1 of the empty record does not exist
 	}
 	if len(lines) != want {
 		return hx.Fail("C05/probe-output/"+c.Cls, fmt.Sprintf("%d probe lines, expected %d", len(lines), want), nil, string(res.Stdout), prog)
@@ -738,7 +745,7 @@ func replayT(c *Case) hx.Outcome {
 	prog := sProgram(s, c.Cf.Bytes(), c.Of.Bytes())
 	var in bytes.Buffer
 	in.WriteString("1.0\n")
-	for i := 0; i < 3; i++ {
+	for i := 0; i < 4; i++ {
 		in.Write(s)
 		in.WriteByte('\n')
 	}
